@@ -37,7 +37,8 @@ EXPLANATION = (
     " (R2, inter-procedural) a pointer handed to a callee that keeps it - least fixed point over the call graph of: the parameter is assigned to a global, a member or an array element that outlives the call, or passed on to such a parameter - is not freed while that location can still hold it (a self-test subject under scv/selftest/c06 keeps the rule exercised: it has no instance on the unchanged tree). (R6N) a local pointer is not dereferenced where every definition that reaches the dereference is the null constant (variables whose address is taken are not decided)."
     " (R5c) every loop that follows the head / base links of the type graph (links the parser builds from names, so an invalid schema can make them cyclic) is in a frozen table with the reason why it ends; for walks that run during resolution the reason is re-verified: the loop condition tests the resolve-failed mark of the node it stands on. A new, unlisted walk is a violation until it is reviewed. (R2b, engine of C05 R9) a freed local or a copy of it is not used before it is re-assigned."
     " (R5d) every function of the resolver that calls itself for each element of a list an invalid schema can make cyclic (sub/supertypes, USE/REFERENCE schemas, select items) sets a visited mark first, threads a visited list, or - entity graph - runs after the loop check, whose reporting branch must unlink the closing link from both lists (re-verified)."
-    " (R9, engine of C18 R1) no local of the front end is read before it is assigned (clang -Wuninitialized / -Wsometimes-uninitialized).")
+    " (R9, engine of C18 R1) no local of the front end is read before it is assigned (clang -Wuninitialized / -Wsometimes-uninitialized)."
+    " (R10) inductive invariant of the parser's scope stack: every store into `pscope` gives the entry itself where it is named (true arm of the conditional on the scope's symbol, or the base entry) or another entry's `pscope`, so diagnostics never ask for the symbol of an unnamed scope (null get_symbol).")
 
 ENTRIES = ["main", "EXPRESSparse", "EXPRESSresolve", "print_file", "EXPRESSinit_init"]
 IDENT = {
